@@ -20,7 +20,7 @@ RULES = {
           "rendered_size by the same pair",
     "R3": "a dynamic size is re-evaluated on every access and restored after rendering: rendered_size/width/height call _valid_size directly for a "
           "Size member; no result of _valid_size is stored anywhere but into `_size` (by set_size / UrwidImage.render); `_size` has no other writer; "
-          "_renderer restores a dynamic size in finally",
+          "_renderer restores a dynamic size in finally; shared with C09.R5: a frame cached by ImageIterator is keyed by and re-validated against hash(image.rendered_size)",
     "R4": "mode dispatch is exhaustive: _valid_size refers to every member of Size (FIT being the fall-through)",
     "R5": "sibling agreement inside _valid_size: AUTO's fits-the-frame test compares exactly the pixel width/height that ORIGINAL returns; the two FIT "
           "branches are mirror images under width<->height (with * and / of the pixel ratio exchanged)",
@@ -231,6 +231,12 @@ def run(ck, m):
     conv = sorted({(call_name(c) or "") for c in body_walk(vs) if isinstance(c, ast.Call) and (call_name(c) or "") in ("int", "floor", "ceil", "trunc", "math.floor", "math.ceil", "math.trunc", "round")})
     ck.ob("R5", vs, conv == ["round"], f"_valid_size converts computed (float) dimensions with {conv}; only round() keeps a dimension that is mathematically equal to the frame's from coming out one cell short",
           stmt="_valid_size: float dimensions converted with round() only")
+    # ---- shared with C09.R5: a frame cached by ImageIterator follows a dynamic size (keyed by hash(image.rendered_size), re-validated)
+    from tiv.report import Scoped
+    import rules.c09 as c09
+    sc9 = Scoped(ck, "R3", lambda c: c.endswith("ImageIterator._animate"), rids={"R5"})
+    c09.run(sc9, m)
+    ck.expect(sc9.kept >= 4, f"expected the ImageIterator cache obligations of C09.R5 (got {sc9.kept})")
 
 
 MUTANTS = [
